@@ -186,6 +186,14 @@ class Oracle:
                 return {**q, "a": a}
             if k == "norm":
                 return {**q, "a": X.export(f, self.idx)}
+            if k == "corner":
+                corner = {s_: sympy.Integer(b[1] if q["hi"] else b[0]) for s_, b in zip(self.syms, self.box)}
+                try:
+                    v = f.subs(corner)
+                    a = bool(v.is_number and ((v < 0) if q["lt"] else (v > 0)))
+                except TypeError:
+                    a = None
+                return {**q, "a": a}
             if k == "doit":
                 return {**q, "a": X.export(f.doit(), self.idx)}
             if k == "expand":
@@ -612,8 +620,15 @@ def classify_diff(f, s, syms, box, verdict: str, limit: float = 20.0) -> str:
 # everything that is checked about ONE formula on ONE box
 # ----------------------------------------------------------------------------------------------------------------
 
-CFGS = {"asIs": {"tdnczEarly": True, "heavIntCrash": True}, "no-early-return": {"tdnczEarly": False, "heavIntCrash": True},
-        "int-wrapped": {"tdnczEarly": True, "heavIntCrash": False}, "repaired": {"tdnczEarly": False, "heavIntCrash": False}}
+_FLAGS = ("tdnczEarly", "heavIntCrash", "heavPerAtom", "relCorner")
+_REPAIRED = {"tdnczEarly": False, "heavIntCrash": False, "heavPerAtom": True, "relCorner": True}
+# the model of the code today first; then each repair undone on its own; then the code as it was found
+CFGS = {"repaired": dict(_REPAIRED),
+        "old:tdncz-early-return": {**_REPAIRED, "tdnczEarly": True},
+        "old:heaviside-int-crash": {**_REPAIRED, "heavIntCrash": True},
+        "old:joint-heaviside-partition": {**_REPAIRED, "heavPerAtom": False},
+        "old:relational-not-validated": {**_REPAIRED, "relCorner": False},
+        "asIs": {"tdnczEarly": True, "heavIntCrash": True, "heavPerAtom": False, "relCorner": False}}
 MODEL_EXC = {"no free symbol": "ValueError", "symbol not in bounds": "ValueError", "recursion limit": "RecursionError"}
 FUEL = 80
 
@@ -717,7 +732,7 @@ def check_formula(drv, f, syms, box, *, limit: float = 15.0, do_cosim: bool = Tr
             orc = Oracle(syms, box, limit)
             req = ({"op": "verdict", "f": tree, "box": box, "tdncz": bool(td), "fuel": FUEL} if kind == "sign"
                    else {"op": "dverdict", "f": tree, "box": box, "s": idx[s], "fuel": FUEL})
-            model = cosim(drv, {**req, "cfg": CFGS["asIs"]}, orc)
+            model = cosim(drv, {**req, "cfg": CFGS["repaired"]}, orc)
             rec["model"] = list(model)
             rec["real_on_model_input"] = list(real_g)
 
@@ -727,16 +742,27 @@ def check_formula(drv, f, syms, box, *, limit: float = 15.0, do_cosim: bool = Tr
 
             if model[0] in ("v", "exc") and real_g[0] in ("v", "exc"):
                 rec["agree"] = same_outcome(model)
-                variant_sensitive = bool(td) or "AttributeError" in (model[1], real_g[1])
-                if variant_sensitive:
-                    cons = ["asIs"] if rec["agree"] else []
-                    for name in ("no-early-return", "int-wrapped", "repaired"):
-                        mv = cosim(drv, {**req, "cfg": CFGS[name]}, orc)
-                        if mv[0] in ("v", "exc") and same_outcome(mv):
-                            cons.append(name)
-                    rec["consistent_variants"] = cons
-                else:
-                    rec["consistent_variants"] = list(CFGS) if rec["agree"] else []
+                # which switches can matter on this run at all?
+                tab = orc.table
+                sens = {"tdnczEarly": bool(td),
+                        "heavPerAtom": any(X.has_node(q_["f"], {"H"}) for q_ in tab if q_["k"] in ("norm", "doit")),
+                        "heavIntCrash": any(q_["k"] in ("norm", "doit") and q_["a"][0] == "H" for q_ in tab)
+                        or "AttributeError" in (model[1], real_g[1]),
+                        "relCorner": any(q_["k"] == "rel" and q_["a"] is True for q_ in tab)}
+                cons = []
+                for name, cfg in CFGS.items():
+                    if name == "repaired":
+                        ok_v = rec["agree"]
+                    elif all(cfg[fl] == _REPAIRED[fl] or not sens[fl] for fl in _FLAGS):
+                        ok_v = rec["agree"]          # differs only in switches that cannot matter here
+                    elif rec["agree"] and not any(sens[fl] for fl in _FLAGS if cfg[fl] != _REPAIRED[fl]):
+                        ok_v = True
+                    else:
+                        mv = cosim(drv, {**req, "cfg": cfg}, orc)
+                        ok_v = mv[0] in ("v", "exc") and same_outcome(mv)
+                    if ok_v:
+                        cons.append(name)
+                rec["consistent_variants"] = cons
             bad_or = validate_oracle_table(orc.table, syms, box)
             out["oracle_answers"] += len(orc.table)
             for b in bad_or:
